@@ -1542,3 +1542,86 @@ def truc_rule_current(ctx, crate):
     ctx.floor(['C12'], 'B-CURRENT', 3)
 
 
+
+
+def truc_rule_once(ctx, crate):
+    """B-ONCE (C12): in every shipped strategy, each iteration of the loop over the ids being
+    added performs exactly one list insertion (Vec::push / Vec::insert on the data list, or push_datum)."""
+    GEN_SIG = STRATEGY_SIG
+    strategies = []
+    for path, fn in crate.fns.items():
+        ins = fn.get('inputs') or []
+        if len(ins) == 4 and ins[:3] == GEN_SIG and 'DatumDefinitionCollection' in ins[3] and fn.get('output') == GEN_SIG[0]:
+            b = crate.body(path)
+            if b is not None and b.def_kind in ('Fn', 'AssocFn'):
+                strategies.append(b)
+    for b in strategies:
+        defs = local_defs(b)
+        taint = taint_ids(b, {1: {'OLD'}, 2: {'ADD'}, 3: {'REMOVE'}})
+        # loop heads over ADD ids: `next` calls whose iterator carries ADD only
+        heads = []
+        for bb, t in b.calls():
+            p = callee_path(t) or ''
+            if p.endswith('Iterator>::next') or p.endswith('::next'):
+                a = op_place(t['args'][0])
+                lab = taint[a['l']] if a else set()
+                dty = t['dest'].get('ty') or ''
+                if 'ADD' in lab and 'OLD' not in lab and 'DatumId' in dty:
+                    heads.append((bb, t))
+        # the outermost ADD loop that yields ids (simple() has a first loop that only groups ids by size)
+        def insertion_blocks():
+            out = []
+            for bb, t in b.calls():
+                p = callee_path(t) or ''
+                if p in ('alloc::vec::Vec::<T, A>::push', 'alloc::vec::Vec::<T, A>::insert'):
+                    r = trace_value(b, defs, t['args'][0])[-1]
+                    if r[0] == 'ref' and not r[2]['p'] and r[2]['l'] == 1:
+                        out.append(bb)
+                elif p.endswith('NativeDataUpdater>::push_datum'):
+                    out.append(bb)
+            return out
+        ins_blocks = insertion_blocks()
+        decided = False
+        for hb, ht in heads:
+            some = None
+            nxt = ht['t']
+            sw = b.blocks[nxt]['term'] if nxt is not None else None
+            if sw and sw['k'] == 'switch':
+                some = dict(sw['targets']).get(1)
+            if some is None:
+                continue
+            body_reach = b.reachable(some, unwind=False, removed_blocks=[hb])
+            mine = [x for x in ins_blocks if x in body_reach]
+            if not mine:
+                continue        # a loop over the added ids that does not build the list (grouping pass)
+            decided = True
+            # at least one insertion on every way back to the head
+            back = b.reachable(some, unwind=False, removed_blocks=mine)
+            if hb in back:
+                ctx.add(['C12'], 'B-ONCE', b.key, 'an added datum can go through an iteration of the placement loop without being inserted into the variant\'s list (it would silently be missing from the variant)', key='%s|skipped' % b.path.split('::')[-1])
+            # at most one
+            twice = False
+            for x in mine:
+                s_ = b.blocks[x]['term']['t']
+                if s_ is None:
+                    continue
+                r = b.reachable(s_, unwind=False, removed_blocks=[hb])
+                if any(y in r for y in mine):
+                    twice = True
+            if twice:
+                ctx.add(['C12'], 'B-ONCE', b.key, 'an added datum can be inserted twice into the variant\'s list in one iteration', key='%s|twice' % b.path.split('::')[-1])
+            if hb not in back and not twice:
+                ctx.inst('B-ONCE', '%s: exactly one list insertion per added id (insertion sites bb%s)' % (b.path.split('::')[-1], mine))
+        if not decided:
+            ctx.add(['C12'], 'B-ONCE', b.key, 'cannot find the loop that inserts the added ids into the list (unanalysable: fail closed)', key='%s|shape' % b.path.split('::')[-1])
+        # removals: the list is filtered with data_to_remove (retain / remove_data)
+        rem = False
+        for bb, t in b.calls():
+            p = callee_path(t) or ''
+            if p == 'alloc::vec::Vec::<T, A>::retain' or p.endswith('NativeDataUpdater>::remove_data'):
+                r = trace_value(b, defs, t['args'][0])[-1]
+                if r[0] == 'ref' and not r[2]['p'] and r[2]['l'] == 1:
+                    rem = True
+        if not rem:
+            ctx.add(['C12'], 'B-ONCE', b.key, 'the strategy does not remove data_to_remove from the list', key='%s|remove' % b.path.split('::')[-1])
+    ctx.floor(['C12'], 'B-ONCE', 6)
